@@ -313,3 +313,10 @@ V("C17", "mp_proc_status_not_aggregated", "violation", ("andes/main.py", "      
 V("C17", "main_run_pool_only_first_system", "violation", ("andes/main.py", "            for s in system:\n                ex_code += s.exit_code\n", "            ex_code += system[0].exit_code\n"), rule="C17.aggregate")
 V("C17", "benign_mp_proc_sum_exitcodes", "silent", ("andes/main.py", "                if job.exitcode != 0:\n                    n_failed += 1\n", "                n_failed += 1 if job.exitcode else 0\n"))
 V("C17", "benign_main_run_ifexp_aggregation", "silent", ("andes/main.py", "        if system is not None:\n            ex_code += system.exit_code\n        else:\n            ex_code += 1\n", "        ex_code += system.exit_code if system is not None else 1\n"))
+V("C17", "tds_run_ignores_failed_init", "violation", (TDS, "        if self.test_ok is False:\n            logger.error('Initialization failed. Simulation will not continue.')\n            system.exit_code += 1\n            return succeed\n", "        if self.test_ok is False:\n            logger.error('Initialization failed.')\n"), rule="C17.gate")
+V("C17", "tds_run_busted_gate_after_resume", "violation", (TDS, "        if self.busted:\n            logger.error('Simulation was terminated by an error at t=%.4f s and cannot be continued.', system.dae.t)\n            system.exit_code += 1\n            return succeed\n", ""), (TDS, "        if resume:\n            self.init_resume()\n", "        if resume:\n            self.init_resume()\n        if self.busted:\n            system.exit_code += 1\n            return succeed\n"), rule="C17.gate")
+V("C17", "tds_run_continues_busted", "violation", (TDS, "        if self.busted:\n            logger.error('Simulation was terminated by an error at t=%.4f s and cannot be continued.', system.dae.t)\n            system.exit_code += 1\n            return succeed\n", ""), rule="C17.gate")
+V("C17", "eig_precheck_ignores_busted", "violation", (EIG, "        if system.TDS.busted:\n", "        if system.TDS.busted and system.TDS.initialized is False:\n"), rule="C17.gate")
+V("C17", "eig_precheck_test_ok_before_init", "violation", (EIG, "        if system.TDS.test_ok is False:\n            logger.error('Initialization of dynamic models failed. Eig analysis will not continue.')\n            status = False\n", ""), (EIG, "        if system.TDS.initialized is False:\n            system.TDS.init()", "        if system.TDS.test_ok is False:\n            return False\n        if system.TDS.initialized is False:\n            system.TDS.init()"), rule="C17.gate")
+V("C17", "benign_eig_precheck_flags_one_test", "silent", (EIG, "        if system.TDS.test_ok is False:\n            logger.error('Initialization of dynamic models failed. Eig analysis will not continue.')\n            status = False\n\n        if system.TDS.busted:\n", "        if system.TDS.test_ok is False or system.TDS.busted:\n"))
+V("C17", "benign_tds_run_gates_merged", "silent", (TDS, "        if self.busted:\n            logger.error('Simulation was terminated by an error at t=%.4f s and cannot be continued.', system.dae.t)\n            system.exit_code += 1\n            return succeed\n", "        if self.busted is True:\n            logger.error('Simulation was terminated by an error and cannot be continued.')\n            system.exit_code += 1\n            return False\n"))
